@@ -1,14 +1,39 @@
 /-
   C07 — evaluation is deterministic across processes and hash seeds.
 
-  Property theorems only (helper lemmas: Arrai/C07/Lemmas.lean, Arrai/C06/{Lemmas,Embed,Clients}.lean).
-  The per-process hash seeds decide in which order every frozen set, frozen map and Go map is
-  enumerated; in the model every such collection is a list in that order (`C06.Rep`) and an
-  enumeration order is any permutation (`List.Perm`).  The theorems say that what can be observed —
-  the canonical form of a value (`key`, which determines `=` and `<`), the order in which members
-  are printed, the result of `orderby` without ties — is the same for every such order.
+  Property theorems only (helper lemmas: Arrai/C07/*.lean, Arrai/C06/{Lemmas,Embed,Clients,Den}.lean).
+  The per-process hash seeds decide in which order every frozen set, frozen map and Go map is enumerated; in the model
+  every such collection is a list in that order (`C06.Rep`) and an enumeration order is any permutation-valued function
+  on member lists (`EnumOrder`, `PermValued`).  The theorems say that what can be observed — the canonical form of a value
+  (`key`, which determines `=` and `<`), the text printed for it, the result of `orderby` without ties, ranks, the member
+  bound by a set pattern — is the same for every such order.
+
+  WHAT THE FINAL THEOREMS COVER
+  * `C07` (values) and `C07_printed` (printed text: `fu.Repr` and what `OutputValue` writes): programs `Ex`, nested to any
+    depth, over literals of EVERY representation (numbers, tuples, sugar tuples, strings, byte arrays, arrays, dictionaries,
+    relations, generic and union sets), built from
+      `|`  `&`  `&~`  `where` (`. < n`, `. != n`, `. >= {}`, `true`)  `with`  `without`  `count`  `{x}`
+      `=>` with `.`, a constant, `(a: .)`, `(a: ., b: n)`, `[.]`
+      `orderby` (same element functions) — under NoTies, the documented exemption
+      `rank (r₁: .a₁, …)` — rank = number of rows with a strictly smaller key (C06 `rank_by_less`), any number of ranking
+        attributes, ties included
+      `let {l₁, …, ...t} = s; t`  (`C07`)  and  `let {l₁, …, a} = s; a`  (`C07_setpat`, the "pick an element" construct).
+    Hypothesis `Adm`, decided on the run under the identity order: no set-builder call receives two sugar tuples at one
+    index (`NoSuper` — otherwise KF-superimposed, a genuine order dependence: `superimposed_order_dependent`,
+    `C07_full_false`), `orderby` keys do not tie, literals and ranking attributes do not repeat an attribute name.
+  * `build_order_independent`: `SetBuilder.Add`* ; `Finish` for ALL buckets (generic, string, bytes, array, dict, relation)
+    and the assembly of a union set from several buckets.
+  * `printed_text_function_of_key`: `key a = key b → repr a = repr b` for ALL well-named values (dict, relation and union
+    included) — two processes that hold the same value in different internal orders print the same text.
+
+  WHAT STILL RESTS ON THE N-PROCESS RUNS (4 processes in quick, 16 in thorough, different hash seeds, compared byte for byte
+  and with the model): the element functions `-.` and `{.}` inside `=>`/`orderby`; the generated `Pg` program shapes that are
+  not `Ex` terms (set patterns with a conditional body, `rank` over a computed attribute `.i % 3`, `nest`, `max`/`min`
+  reducers, `orderby` with TIED keys where only the key sequence is predicted — `orderby_ties_only`); error MESSAGES
+  (the model has one `err`); parsing and the text → `Rep` reading of literals; and that the Go code is what the model says
+  (`members`, `build`, `Less`, `Format`) — the model-vs-Go comparison of every generated case is that tie.
 -/
-import Arrai.C07.Nested
+import Arrai.C07.Printed
 
 namespace Arrai.C07.Theorems
 open Arrai.C06 Arrai.C07
@@ -44,14 +69,28 @@ theorem orderby_ties_only (keyf : Rep → Rep) (xs ys : List Rep) (hp : xs.Perm 
 
 /-! ### the set builder -/
 
-/-- FULL statement (not proved in this round): the set builder is order-independent on every list of values that
-does not superimpose two sugar tuples at one index -/
-def build_order_independent_full : Prop :=
-  ∀ xs ys : List Rep, Impl.superimposedL xs = false → KP xs ys →
-    key (C06.Impl.build xs) = key (C06.Impl.build ys)
+/-- THE SET BUILDER IS ORDER-INDEPENDENT (all buckets: generic, string, bytes, array, dict, relation, and the assembly of a
+union set from the bucket map): if the values added do not superimpose two sugar tuples at one index (`NoSuper`) and no
+tuple repeats an attribute name (a frozen map cannot), the canonical form of `SetBuilder.Add`* ; `Finish` depends only on
+the multiset of canonical forms added — not on the order of the `Add` calls, nor on the enumeration orders inside the
+values added. The overwrite loops of asString/asBytes/asArray are order-independent exactly under `NoSuper`
+(see `superimposed_order_dependent` for the converse). -/
+theorem build_order_independent (xs ys : List Rep) (hn : NoSuper xs)
+    (tx : ∀ v ∈ xs, tupleNodup v) (ty : ∀ w ∈ ys, tupleNodup w) (h : KP xs ys) :
+    key (C06.Impl.build xs) = key (C06.Impl.build ys) := Arrai.C07.build_order_independent hn tx ty h
 
-/-- proved part: values that fall into the generic bucket of `SetBuilder` (numbers, sets of every representation,
-the empty tuple): the canonical form of the result depends only on the multiset of canonical forms added -/
+/-- the hypotheses are satisfiable non-trivially: `{(@:0,@char:97), (@:2,@char:98), (a:1,b:2), (@:1,@value:2), [3], 4}`
+in two orders (a string with a hole, a relation, a dict, a generic bucket: four buckets) -/
+example : NoSuper [.charT 0 97, .charT 2 98, .gtuple [("a", .num 1), ("b", .num 2)], .entryT (.num 1) (.num 2),
+      .array [some (.num 3)] 0, .num 4] ∧
+    (∀ v ∈ [Rep.charT 0 97, .charT 2 98, .gtuple [("a", .num 1), ("b", .num 2)], .entryT (.num 1) (.num 2),
+      .array [some (.num 3)] 0, .num 4], tupleNodup v) := by
+  refine ⟨⟨by decide, by decide, by decide⟩, ?_⟩
+  intro v hv
+  simp only [List.mem_cons, List.not_mem_nil, or_false] at hv
+  rcases hv with rfl | rfl | rfl | rfl | rfl | rfl <;> simp [tupleNodup]
+
+/-- special case (no hypothesis on names needed): values that fall into the generic bucket -/
 theorem build_order_independent_partial (xs ys : List Rep) (hx : allGeneric xs) (hy : allGeneric ys) (h : KP xs ys) :
     key (C06.Impl.build xs) = key (C06.Impl.build ys) := build_order_independent_generic hx hy h
 
@@ -114,12 +153,75 @@ example : GenEx (.filter (.diff (.map (.union (.lit "{1, {2}, 'a'}" (.generic [.
                               (.with_ (.lit "{[1]}" (.generic [.array [some (.num 1)] 0])) (.lit "'b'" (.str [98] 0))))
                        (.neNum 0)) = true := by decide
 
+/-- THEOREM C07 (values): every admissible program — nested to any depth over `|`, `&`, `&~`, `=>` (with `.`, a constant,
+`(a: .)`, `(a: ., b: n)`, `[.]`), `where`, `orderby` (keys must not tie: the documented exemption), `rank` (any ranking
+attributes, ties included), `with`, `without`, `count`, `{x}` and `let {l₁, …, ...t} = s; t`, over literals of every
+representation (strings, byte arrays, arrays, dictionaries, relations, union sets, …) — evaluates to a value with the same
+canonical form (hence the same `=`/`<` behaviour), or to the same error, under every enumeration order of every set, map
+and tuple it walks.
+`Adm` (decided on the evaluation under the identity order): no set-builder call receives two sugar tuples at one index
+(`KF-superimposed`), `orderby` keys do not tie, no tuple of a literal and no `rank` clause repeats an attribute name. -/
+theorem C07 (e : Ex) (h : Adm e) (π₁ π₂ : EnumOrder) (h₁ : PermValued π₁) (h₂ : PermValued π₂) :
+    keyRes (Impl.evalUnder π₁ e) = keyRes (Impl.evalUnder π₂ e) := eval_order_independent e h π₁ π₂ h₁ h₂
+
+/-- set patterns that bind an identifier, `let {l₁, …, a} = s; a` (the construct that "picks an element"): whatever the
+enumeration order, the same member is bound, or the same error is raised (no member, or several members, left) -/
+theorem C07_setpat (lits : List (String × Rep)) (a : Ex) (h : Adm a) (π₁ π₂ : EnumOrder)
+    (h₁ : PermValued π₁) (h₂ : PermValued π₂) :
+    keyRes (Impl.evalUnder π₁ (.setpat lits false a)) = keyRes (Impl.evalUnder π₂ (.setpat lits false a)) :=
+  setpat_order_independent lits a h π₁ π₂ h₁ h₂
+
+/-- `Adm` is satisfiable by a non-trivial program mixing buckets: `({(a: 1), 'x', 2} | {[3]}) => (a: .)` -/
+example : Adm (.map (.union (.lit "{(a: 1), 'x', 2}" (.union [.relation ["a"] [[.num 1]], .generic [.str [120] 0, .num 2]]))
+                            (.lit "{[3]}" (.generic [.array [some (.num 3)] 0]))) .wrapA) := by
+  refine ⟨⟨⟨trivial, ?_⟩, ⟨trivial, ?_⟩, ?_⟩, rfl, ?_⟩
+  · intro v hv
+    simp only [members, members1, C06.Impl.rowTuple, zipNames, List.flatMap_cons, List.flatMap_nil, List.map_cons,
+      List.map_nil, List.append_nil, List.cons_append, List.nil_append, List.mem_cons, List.not_mem_nil, or_false] at hv
+    rcases hv with rfl | rfl | rfl <;> simp [tupleNodup]
+  · intro v hv
+    simp only [members, members1, List.mem_cons, List.not_mem_nil, or_false] at hv
+    subst hv; trivial
+  · exact ⟨by decide, by decide, by decide⟩
+  · exact ⟨by decide, by decide, by decide⟩
+
+/-- `Adm` holds for `rank` over a relation with tied keys: `{(k: 1, v: 2), (k: 1, v: 1)} rank (rk: .k, rv: .v)` -/
+example : Adm (.rank (.lit "{(k: 1, v: 2), (k: 1, v: 1)}" (.relation ["k", "v"] [[.num 1, .num 2], [.num 1, .num 1]]))
+    [("rk", "k"), ("rv", "v")]) := by
+  refine ⟨⟨trivial, ?_⟩, by decide⟩
+  intro v hv
+  simp only [members, members1, C06.Impl.rowTuple, zipNames, List.map_cons, List.map_nil, List.mem_cons, List.not_mem_nil,
+    or_false] at hv
+  rcases hv with rfl | rfl <;> simp [tupleNodup]
+
 /-! ### printed text -/
 
-/-- FULL statement (not proved in this round): the printed text is a function of the canonical form -/
-def printed_text_function_of_key_full : Prop := ∀ a b : Rep, key a = key b → Impl.repr a = Impl.repr b
+/-- THE PRINTED TEXT IS A FUNCTION OF THE CANONICAL FORM, for every representation (dictionaries, relations and union sets
+included; their entries / rows / members are printed in the C06 order, whose sorted arrangement is unique). `nodupNames`: no
+tuple and no relation heading repeats an attribute name (a frozen map cannot). Two processes that hold the same value with
+different internal enumeration orders, at any depth, print the same text. -/
+theorem printed_text_function_of_key (a b : Rep) (sa : nodupNames a = true) (sb : nodupNames b = true)
+    (hk : key a = key b) : Impl.repr a = Impl.repr b ∧ Impl.outText a = Impl.outText b :=
+  ⟨Full.repr_congr a b sa sb hk, Full.outText_congr a b sa sb hk⟩
 
-/-- proved part: values without a dictionary, relation or union set anywhere inside (numbers, all tuples and wrappers,
+/-- non-trivial instance: the dict `{1: {2, 3}, 'k': (x: 4)}`, the relation `{|a, b| (1, 'x'), (2, 'y')}` and a union set, each
+held in two different internal orders -/
+example :
+    nodupNames (.union [.dict [[.num 1, .generic [.num 2, .num 3]], [.str [107] 0, .gtuple [("x", .num 4)]]],
+      .relation ["a", "b"] [[.num 1, .str [120] 0], [.num 2, .str [121] 0]]]) = true ∧
+    key (.union [.dict [[.num 1, .generic [.num 2, .num 3]], [.str [107] 0, .gtuple [("x", .num 4)]]],
+      .relation ["a", "b"] [[.num 1, .str [120] 0], [.num 2, .str [121] 0]]]) =
+    key (.union [.relation ["b", "a"] [[.str [121] 0, .num 2], [.str [120] 0, .num 1]],
+      .dict [[.str [107] 0, .gtuple [("x", .num 4)]], [.num 1, .generic [.num 3, .num 2]]]]) := by
+  refine ⟨by decide, ?_⟩
+  have h : C06.Impl.equal
+      (.union [.dict [[.num 1, .generic [.num 2, .num 3]], [.str [107] 0, .gtuple [("x", .num 4)]]],
+        .relation ["a", "b"] [[.num 1, .str [120] 0], [.num 2, .str [121] 0]]])
+      (.union [.relation ["b", "a"] [[.str [121] 0, .num 2], [.str [120] 0, .num 1]],
+        .dict [[.str [107] 0, .gtuple [("x", .num 4)]], [.num 1, .generic [.num 3, .num 2]]]]) = true := by decide
+  simpa [C06.Impl.equal, K.beq_iff] using h
+
+/-- earlier special case (no hypothesis on names): values without a dictionary, relation or union set anywhere inside (numbers, all tuples and wrappers,
 strings, byte arrays, arrays, generic sets, nested arbitrarily): two representations with the same canonical form —
 in particular the same value enumerated in two different orders at any depth — print the same text -/
 theorem printed_text_function_of_key_partial (a b : Rep) (sa : simple a = true) (sb : simple b = true)
@@ -150,10 +252,27 @@ theorem C07_partial_printed (e : Ex) (π₁ π₂ : EnumOrder) (h₁ : PermValue
   simp only [keyRes, Option.some.injEq] at h
   exact repr_congr r₁ r₂ s₁ s₂ h
 
-/-- FULL statement (not proved in this round): every program of the fragment, nested, all admissible member lists -/
+/-- THEOREM C07 (printed text): an admissible program over well-named literals (`litsNN`) prints the same text — `fu.Repr`
+and what `OutputValue` writes — or fails alike, under every enumeration order. (Every value such a program computes is
+well named: `nn_eval`; then `printed_text_function_of_key`.) -/
+theorem C07_printed (e : Ex) (h : Adm e) (hl : litsNN e) (π₁ π₂ : EnumOrder) (h₁ : PermValued π₁) (h₂ : PermValued π₂) :
+    printedRes (Impl.evalUnder π₁ e) = printedRes (Impl.evalUnder π₂ e) := printed_order_independent e h hl π₁ π₂ h₁ h₂
+
+/-- the statement WITHOUT the admissibility hypothesis -/
 def C07_full : Prop :=
   ∀ (e : Ex) (π₁ π₂ : EnumOrder), PermValued π₁ → PermValued π₂ →
     keyRes (Impl.evalUnder π₁ e) = keyRes (Impl.evalUnder π₂ e)
+
+/-- … is false: `{(@: 0, @char: 97), (@: 0, @char: 98)} => .` is `'b'` under one enumeration order and `'a'` under the
+reverse (`KF-superimposed`, a known finding: the set builder keeps the tuple it sees last) -/
+theorem C07_full_false : ¬ C07_full := by
+  intro h
+  have := h (.map (.lit "" (.generic [.charT 0 97, .charT 0 98])) .ident) (fun l => l) List.reverse
+    (fun l => List.Perm.refl l) (fun l => List.reverse_perm l)
+  have e₁ : Impl.evalUnder (fun l => l) (.map (.lit "" (.generic [.charT 0 97, .charT 0 98])) .ident) = .ok (.str [98] 0) := by rfl
+  have e₂ : Impl.evalUnder List.reverse (.map (.lit "" (.generic [.charT 0 97, .charT 0 98])) .ident) = .ok (.str [97] 0) := by rfl
+  rw [e₁, e₂] at this
+  simp [keyRes] at this
 
 /-- `KF-superimposed`: genuine order dependence. Two enumeration orders of the same two members build different
 strings (`'b'` resp. `'a'`): the set builder keeps the tuple it sees last. -/
